@@ -7,7 +7,7 @@ Emit == GenDone => PrintT(ToJson([m |-> "PongoApi", toks |-> form]))
 \* value universe, every registered filter on every name with every name (and a few literals) as parameter, every name
 \* as the operand of the looping / membership / indexing constructs
 CONSTANTS CrossFamily
-Lits == {"0", "1", "\"a\"", "\"0:1\"", "nope", "-1", "99999999999", "1.5"}
+Lits == {"0", "1", "\"a\"", "\"0:1\"", "nope", "-1", "99999999999", "1.5", "0.5", "0.0", "\"0.5\""}
 CrossInit ==
   /\ ApiInit /\ steps = 0
   /\ CASE CrossFamily = "ops" ->
